@@ -55,13 +55,14 @@ theorem nodeOfBytes_lt {d : List Nat} {p : Nat} {n : Node} (h : nodeOfBytes d p 
 theorem nodeOfBytes_cases {d : List Nat} {p : Nat} {n : Node} (h : nodeOfBytes d p = some n) :
     ∃ fmt, paintRead d p = .ok fmt ∧
       ((fmt = 1 ∧ n = .colrLayers (be d (p + 2) 4) (be d (p + 1) 1)) ∨
-       ((fmt = 2 ∨ fmt = 3) ∧ n = .leaf true) ∨
-       (4 ≤ fmt ∧ fmt ≤ 9 ∧ ∃ g, gradientCase d p fmt = some g ∧ n = .leaf g.fills) ∨
+       ((fmt = 2 ∨ fmt = 3) ∧ n = .leaf (some (solidBrush (be d (p + 1) 2) (i16 (be d (p + 3) 2))))) ∨
+       (4 ≤ fmt ∧ fmt ≤ 9 ∧ ∃ cl, colorLineAt d p (fmt % 2 = 1) = some cl ∧
+          n = .leaf (gradientBrush fmt cl (caseOf d p fmt cl))) ∨
        (fmt = 10 ∧ ∃ q, childAt d p (p + 1) = some q ∧ n = .glyph (be d (p + 4) 2) q) ∨
        (fmt = 11 ∧ n = .colrGlyph (be d (p + 1) 2)) ∨
        (fmt = 32 ∧ ∃ s b, childAt d p (p + 1) = some s ∧ childAt d p (p + 5) = some b ∧
           n = .composite s (modeOf (be d (p + 4) 1)) b) ∨
-       (12 ≤ fmt ∧ fmt ≠ 32 ∧ ∃ q, childAt d p (p + 1) = some q ∧ n = .transform q)) := by
+       (12 ≤ fmt ∧ fmt ≠ 32 ∧ ∃ q, childAt d p (p + 1) = some q ∧ n = .transform p q)) := by
   unfold nodeOfBytes at h
   split at h
   · cases h
@@ -79,7 +80,7 @@ theorem nodeOfBytes_cases {d : List Nat} {p : Nat} {n : Node} (h : nodeOfBytes d
       · simp only [h2, ↓reduceIte] at h
         by_cases h3 : 4 ≤ fmt ∧ fmt ≤ 9
         · simp only [h3, and_self, ↓reduceIte] at h
-          cases hg : gradientCase d p fmt with
+          cases hg : colorLineAt d p (fmt % 2 = 1) with
           | none => simp [hg] at h
           | some g =>
             simp only [hg, Option.map_some] at h
@@ -156,11 +157,11 @@ theorem nodeOfBytes_glyph {d : List Nat} {p g ch : Nat}
   case inr.inr.inr.inl => injection hn with h1 h2; subst h2; exact childAt_forward hq
   all_goals cases hn
 
-theorem nodeOfBytes_transform {d : List Nat} {p ch : Nat}
-    (h : nodeOfBytes d p = some (.transform ch)) : p < ch ∧ ch < d.length := by
+theorem nodeOfBytes_transform {d : List Nat} {p tag ch : Nat}
+    (h : nodeOfBytes d p = some (.transform tag ch)) : p < ch ∧ ch < d.length ∧ tag = p := by
   obtain ⟨fmt, hf, hc⟩ := nodeOfBytes_cases h
   rcases hc with ⟨_, hn⟩ | ⟨_, hn⟩ | ⟨_, _, g, _, hn⟩ | ⟨_, q, hq, hn⟩ | ⟨_, hn⟩ | ⟨_, s, b, _, _, hn⟩ | ⟨_, _, q, hq, hn⟩
-  case inr.inr.inr.inr.inr.inr => injection hn with h1; subst h1; exact childAt_forward hq
+  case inr.inr.inr.inr.inr.inr => injection hn with h0 h1; subst h1; exact ⟨(childAt_forward hq).1, (childAt_forward hq).2, h0⟩
   all_goals cases hn
 
 theorem nodeOfBytes_composite {d : List Nat} {p s m b : Nat}
